@@ -141,6 +141,14 @@ def eval_case(alpha, s, n, names, flagbits, st, cache=None):
                         clause='result accepts (m,K) iff sig accepts (n+m, names+K)')
         return None
     # ---- with hide_* flags ------------------------------------------------
+    ha_, hk_ = bool(flagbits & 1), bool(flagbits >> 1 & 1)
+    if not ha_ and not hk_:
+        # hide_varargs / hide_varkwargs only drop a star parameter from the *result*: whether sig can be passed the
+        # arguments is decided exactly as without them
+        bstat, _ = do_mask(sig, n, names, {})
+        if (bstat == 'ok') != (status == 'ok'):
+            return viol('mask-flag-changes-raising', without_flags='returns' if bstat == 'ok' else 'raises',
+                        clause='hide_varargs / hide_varkwargs only remove the star parameter; raising is decided as without them')
     if status != 'ok':
         st.inc('raised(flags)')
         return None
